@@ -1,0 +1,61 @@
+//go:build verif
+
+package storage
+
+// Contracts for the govc verifier (/verif). Comment-only: with the `verif` build tag on this
+// file adds no code, and with the tag off it is not compiled at all.
+
+//@ type TxRepository
+//@   guarded_by unconfirmedLock : unconfirmed unconfirmedTx.time unconfirmedTx.unsafe unconfirmedTx.safe unconfirmedTx.trusted
+
+//@ spec InvU(r) = r.unconfirmed != nil && forall(t bitcoin.Hash32, has(r.unconfirmed, t) ==> r.unconfirmed[t] != nil)
+//@      && forall(t bitcoin.Hash32, forall(u bitcoin.Hash32, has(r.unconfirmed, t) && has(r.unconfirmed, u) && t != u ==> r.unconfirmed[t] != r.unconfirmed[u]))
+//@ spec uSameExcept(r, id) = forall(t bitcoin.Hash32, t != id ==> has(r.unconfirmed, t) == old(has(r.unconfirmed, t)) && r.unconfirmed[t] == old(r.unconfirmed[t]))
+//@ spec uSame(r) = forall(t bitcoin.Hash32, has(r.unconfirmed, t) == old(has(r.unconfirmed, t)) && r.unconfirmed[t] == old(r.unconfirmed[t]))
+//@ spec cellSame(x) = x.time == old(x.time) && x.unsafe == old(x.unsafe) && x.safe == old(x.safe) && x.trusted == old(x.trusted)
+//@ spec cellsSameExcept(c) = forall(x *unconfirmedTx, x != c && !fresh(x) ==> cellSame(x))
+
+//@ func (*TxRepository).MarkUnsafe
+//@   serves C05 C07 C03
+//@   atomic unconfirmedLock
+//@   requires InvU(repo)
+//@   ensures known: old(has(repo.unconfirmed, txid)) ==> result0 && result1 == nil && repo.unconfirmed[txid].unsafe
+//@        && same(repo.unconfirmed[txid].safe, repo.unconfirmed[txid].trusted, repo.unconfirmed[txid].time)
+//@   ensures unknown_not_created: !old(has(repo.unconfirmed, txid)) ==> !result0 && result1 == nil
+//@   ensures domain: same(repo.unconfirmed) && uSame(repo) && cellsSameExcept(repo.unconfirmed[txid])
+//@   ensures inv: InvU(repo)
+
+//@ func (*TxRepository).MarkTrusted
+//@   serves C07
+//@   atomic unconfirmedLock
+//@   requires InvU(repo)
+//@   ensures marks: old(has(repo.unconfirmed, txid)) ==> repo.unconfirmed[txid].trusted
+//@   ensures flags: forall(x *unconfirmedTx, !fresh(x) ==> x.safe == old(x.safe) && x.unsafe == old(x.unsafe))
+//@   ensures domain: same(repo.unconfirmed) && uSame(repo) && cellsSameExcept(repo.unconfirmed[txid])
+//@   ensures inv: InvU(repo)
+
+//@ spec newlySafe(r, t) = has(r.unconfirmed, t) && r.unconfirmed[t].safe && !old(r.unconfirmed[t].safe)
+
+//@ func (*TxRepository).GetNewSafe
+//@   serves C07 C12
+//@   atomic unconfirmedLock
+//@   requires InvU(repo) && memPool != nil && state.InvTx(memPool)
+//@   let now = UnixNano(beforeTime)
+//@   ensures warranted: forall(t bitcoin.Hash32, has(repo.unconfirmed, t) && repo.unconfirmed[t].safe && !old(repo.unconfirmed[t].safe) ==>
+//@        !old(repo.unconfirmed[t].unsafe) && UnixNano(old(repo.unconfirmed[t].time)) < now
+//@        && (old(repo.unconfirmed[t].trusted) || (has(memPool.txs, t) && memPool.txs[t].trusted)))
+//@   ensures only_safe_changes: forall(x *unconfirmedTx, !fresh(x) ==> x.time == old(x.time) && x.unsafe == old(x.unsafe) && x.trusted == old(x.trusted) && (old(x.safe) ==> x.safe))
+//@   ensures {nf} reported_are_new: forall(c, 0, len(result0), newlySafe(repo, result0[c]))
+//@   ensures {rep} new_are_reported: forall(t bitcoin.Hash32, has(repo.unconfirmed, t) && repo.unconfirmed[t].safe && !old(repo.unconfirmed[t].safe) ==> exists(c, 0, len(result0), result0[c] == t))
+//@   ensures never_unsafe: forall(t bitcoin.Hash32, has(repo.unconfirmed, t) && old(repo.unconfirmed[t].unsafe) ==> repo.unconfirmed[t].safe == old(repo.unconfirmed[t].safe))
+//@   ensures domain: same(repo.unconfirmed) && uSame(repo) && result1 == nil
+//@   ensures inv: InvU(repo)
+//@   loop 0 invariant same(repo.unconfirmed) && uSame(repo) && InvU(repo) && fresharr(result) && state.InvTx(memPool)
+//@   loop 0 invariant forall(x *unconfirmedTx, !fresh(x) ==> x.time == old(x.time) && x.unsafe == old(x.unsafe) && x.trusted == old(x.trusted) && (old(x.safe) ==> x.safe))
+//@   loop 0 invariant forall(t bitcoin.Hash32, has(repo.unconfirmed, t) && !visited(t) ==> repo.unconfirmed[t].safe == old(repo.unconfirmed[t].safe))
+//@   loop 0 invariant forall(t bitcoin.Hash32, has(repo.unconfirmed, t) && repo.unconfirmed[t].safe && !old(repo.unconfirmed[t].safe) ==>
+//@        !old(repo.unconfirmed[t].unsafe) && UnixNano(old(repo.unconfirmed[t].time)) < now
+//@        && (old(repo.unconfirmed[t].trusted) || (has(memPool.txs, t) && memPool.txs[t].trusted)))
+//@   loop 0 invariant {nf} forall(c, 0, len(result), newlySafe(repo, result[c]))
+//@   loop 0 invariant {rep} forall(t bitcoin.Hash32, has(repo.unconfirmed, t) && repo.unconfirmed[t].safe && !old(repo.unconfirmed[t].safe) ==> exists(c, 0, len(result), result[c] == t))
+//@   loop 0 invariant forall(r2 *state.memPoolTx, r2.trusted == old(r2.trusted)) && same(memPool.txs) && forall(t bitcoin.Hash32, has(memPool.txs, t) == old(has(memPool.txs, t)) && memPool.txs[t] == old(memPool.txs[t]))
